@@ -3206,7 +3206,8 @@ def grouped_reduce(inp: AlignedArrays, *, agg: Scan, axis: int, keepdims=None) -
         func=(agg.reduction,),
         axis=axis,
         engine="flox",
-        dtype=inp.array.dtype,
+        # accumulate the per-block state in the scan's result dtype, not in the (possibly narrower) input dtype
+        dtype=agg.dtype if agg.dtype is not None else inp.array.dtype,
         fill_value=agg.identity,
         expected_groups=None,
     )
